@@ -449,7 +449,7 @@ theorem delete_step (c : Ctx) {l : List Nat} (hj : J c l) : OutcomeP (StepOK c l
 
 theorem insert_step (c : Ctx) {l : List Nat} (hj : J c l) : OutcomeP (StepOK c l) (opInsert c) := by
   refine (insert_J c hj).mono (fun c' h => ?_)
-  rcases h with ⟨e, hJ⟩ | ⟨a, b, n, sg, mp, hl, hnl, hJ, hsx, hsn, hbud, e⟩
+  rcases h with ⟨e, hJ⟩ | ⟨a, b, n, sg, mp, hl, hnl, hJ, hsx, hsn, hbud, e, _⟩
   · refine ⟨l, hJ, ?_, fun hf => ?_⟩
     · subst e
       unfold meas
